@@ -133,7 +133,8 @@ Proof.
 Qed.
 
 (* Parent and region links: after EVERY history of add_protocluster, CandidateCluster(...) +
-   add_candidate_cluster, add_subregion, create_regions, clear_regions, clear_candidate_clusters,
+   add_candidate_cluster, add_subregion, create_candidate_clusters (whichever candidates formation builds, drops and
+   returns, as long as its own assertion holds), create_regions, clear_regions, clear_candidate_clusters,
    clear_subregions, clear_protoclusters (whatever create_regions groups and whichever genes lie
    within the regions), every protocluster's parent is None or a candidate cluster of the record, every
    area's parent is None or a region of the record, and every gene's region link is None or a region
@@ -145,6 +146,22 @@ Theorem C06_no_stale_parents : forall ops, let st := fold_left l_apply ops l_emp
   (forall g r, lget g (l_cdsreg st) = Some r -> In r (map lr_id (l_regions st))).
 Proof. exact no_stale_links. Qed.
 Print Assumptions C06_no_stale_parents.
+
+(* the final loop of create_candidates_from_protoclusters (repair e5074b2a) is what the theorem rests on for
+   create_candidate_clusters: without it the members of a candidate built last and dropped as redundant point at it *)
+Theorem C06_form_without_relink_refuted : exists built returned p c,
+  let st := l_form false built returned (fold_left l_apply [LAddProto 100; LAddProto 101; LAddProto 102] l_empty) in
+  l_cover built returned = true /\ lget p (l_pparent st) = Some c /\ ~ In c (map fst (l_cands st)).
+Proof. exact form_without_relink_stale. Qed.
+Print Assumptions C06_form_without_relink_refuted.
+
+Example C06_form_relinks_example :
+  let ops := [LAddProto 100; LAddProto 101; LAddProto 102;
+              LFormCands [(200, [100; 101]); (201, [100; 102; 101]); (202, [100; 101; 102])] [(201, [100; 102; 101]); (200, [100; 101])]] in
+  let st := fold_left l_apply ops l_empty in
+  lget 100 (l_pparent st) = Some 200 /\ lget 101 (l_pparent st) = Some 200 /\ lget 102 (l_pparent st) = Some 201 /\
+  map fst (l_cands st) = [200; 201].
+Proof. vm_compute. repeat split; reflexivity. Qed.
 
 Example C06_no_stale_parents_example :
   let ops := [LAddProto 100; LAddCand 200 [100]; LAddSub 300; LCreate [([200; 300], [0; 1])]; LClearSubs [([200], [0])]] in
